@@ -232,6 +232,44 @@ def check_texts(agg, year):
                           "[NULL, FALSE]", core.show_raw(r), size=1)
 
 
+YEAR1 = datetime.date(1, 1, 1).toordinal()
+OUT_OF_RANGE = [LAST - BASE + 1, LAST - BASE + 2, YEAR1 - BASE - 1,
+                YEAR1 - BASE - 400, 10 ** 7, -10 ** 7, 2 ** 53 + 1,
+                -2 ** 53 - 1, 10 ** 30, -10 ** 30, 10 ** 400]
+
+
+def explore_range(chunk):
+    """day numbers outside the years 1..9999 are rejected with a runtime
+    error (at once: the conversion must not walk there year by year), as
+    ints and as decimals, by date(n) and by date arithmetic"""
+    agg = core.Agg()
+    f = forms()
+    V = core.ckl.values
+    for n in chunk["numbers"]:
+        vals = [V.ValueInt(n)]
+        if abs(n) < 10 ** 300:
+            vals.append(V.ValueDecimal(float(n)))
+        for v in vals:
+            core.arm(5.0)
+            try:
+                r = f.ev("date_bad", t=v)
+            except core.WallClock:
+                r = ("hang", "wall")
+            finally:
+                core.disarm()
+            agg.count("steps")
+            agg.cls(("out-of-range", r[0]))
+            if not (r[0] == "value" and isinstance(r[1], V.ValueString)
+                    and r[1].value == "rejected"):
+                agg.violation({"law": "out-of-range-day-number-rejected"},
+                              {"t": "range", "n": str(n),
+                               "decimal": isinstance(v, V.ValueDecimal)},
+                              "a runtime error", core.show_raw(r)
+                              if r[0] != "hang" else list(r), size=1)
+    agg.count("cases")
+    return agg
+
+
 def explore_days(chunk):
     agg = core.Agg()
     core.arm(7200)
@@ -396,6 +434,11 @@ def replay(case, verbose=False):
         if verbose:
             print(a.viol)
         return bool(a.viol)
+    if case["t"] == "range":
+        a = explore_range({"numbers": [int(case["n"])]})
+        if verbose:
+            print(a.viol)
+        return bool(a.viol)
     if case["t"] == "diff":
         a = explore_seconds({"days": [case["ordinal"]], "seconds": [],
                              "lang_every": 1})
@@ -462,6 +505,8 @@ def main(tier, seed):
         jobs.append({"ranges": [], "years": c,
                      "texts_all": tier == "thorough"})
     agg = core.pmap(explore_days, jobs)
+    agg.merge(core.pmap(explore_range, [{"numbers": [n]}
+                                        for n in OUT_OF_RANGE]))
     sjobs = []
     for d in sec_days:
         secs = seconds
